@@ -34,6 +34,7 @@ type Obligation struct {
 	ExpectSat bool // covers and canaries
 	Results     []Val
 	ResultTerms []string
+	Dependency  bool     // belongs to a function in the property's dependency closure, not tagged for it
 	Clause      ast.Expr // the contract clause behind a post obligation (for replay: is it a function of inputs and results only?)
 	Splits      []string // branch conditions on the way to this obligation (case-split fallback)
 	CoverGroup  string   // covers: at least one member of the group must be reachable
